@@ -802,33 +802,37 @@ def r183_running(P, u, rep, F, rule='R18.3'):
     # the constructor: the function the loop reaches that returns a token built from (start, end) and (itself or through callees) stores the stamp
     cands = [f for f in sorted(loop_reach) if _ret_token(u.functions[f]) and len(_char_params(u, f)) >= 2 and F in closure(calls, [f])]
     ctor = min(cands, key=lambda f: (len(closure(calls, [f])), f)) if cands else None
-    makers = [f for f in sorted(loop_reach) if _ret_token(u.functions[f]) and f != ctor and f != fn and _char_params(u, f)[:1] == [0]
+    makers = [f for f in sorted(loop_reach) if _ret_token(u.functions[f]) and f != ctor and f != fn and _char_params(u, f)
               and not (ctor is None and f == F)]
     wr_glob = assigned_globals(u, closure(calls, makers, stop=[ctor] if ctor else []))
 
     def cut_maker(it, ctx, call, args):
         name = call.callee()
+        start = args[_char_params(u, name)[0]]
         ln = Sym(ctx.fresh(name + '.len'), 'int')
         ctx.bounds[ln.key()] = [1, INF]
         if ctor is not None and ctor in closure(calls, [name]):
             cp = _char_params(u, ctor)
+            own = {q.name: j for j, q in enumerate(u.params(name)) if q.name}
             wa = []
             for i, p in enumerate(u.params(ctor)):
                 if i == cp[0]:
-                    wa.append(args[0])
+                    wa.append(start)
                 elif i == cp[1]:
-                    wa.append(ladd(args[0], ln))
+                    wa.append(ladd(start, ln))
+                elif p.name in own and own[p.name] < len(args) and (u.params(name)[own[p.name]].type == p.type):
+                    wa.append(args[own[p.name]])          # handed through (a line number passed along, say)
                 else:
                     wa.append(it.lazy_value(p.type, ctx.fresh(name + '.' + (p.name or 'arg'))))
             t = it.call_fn(u, u.functions[ctor], wa)
             if isinstance(t, Obj):
-                t.fields.setdefault('loc', args[0])
+                t.fields.setdefault('loc', start)
                 t.lazy = True
                 t.label = t.label or ctx.fresh(name)
             ctx.emit('call', name, args, call.line, t)
             return t
         t = Obj('Token', lazy=True, label=ctx.fresh(name))
-        t.fields.update({'loc': args[0], 'len': ln})
+        t.fields.update({'loc': start, 'len': ln})
         ctx.emit('call', name, args, call.line, t)
         return t
     opaque = [f for f in sorted(loop_reach) if f not in makers and f != ctor and f not in closure(calls, [ctor] if ctor else [])
